@@ -30,6 +30,11 @@ def main():
         rc, out = sh(["git", "-C", REPO, "apply", os.path.join(d, "patch.diff")])
         if rc != 0:
             rc, out = sh(["git", "-C", REPO, "apply", "-3", os.path.join(d, "patch.diff")])
+        if rc == 0:
+            # a three-way application onto repaired code can leave nothing of the change
+            rcq, outq = sh(["git", "-C", REPO, "diff", "--stat"])
+            if not outq.strip():
+                rc = 1
         if rc != 0:
             res["applies"] = False
             sh(["git", "-C", REPO, "reset", "-q", "--hard", "HEAD"])
